@@ -345,10 +345,10 @@ fn do_map_update(
     f: KValue,
     vm: &mut KotoVm,
 ) -> Result<KValue> {
-    if !map.data().contains_key(&key) {
-        map.data_mut().insert(key.clone(), default);
-    }
-    let value = map.get(&key).unwrap();
+    // Look up the value, inserting the default if necessary, while holding onto a single borrow,
+    // otherwise the map could be modified in between when it's shared.
+    // The borrow is released before calling the update function.
+    let value = map.data_mut().entry(key.clone()).or_insert(default).clone();
     match vm.call_function(f, value) {
         Ok(new_value) => {
             map.data_mut().insert(key, new_value.clone());
